@@ -909,7 +909,16 @@ def c07_random(rng, d, ver, hid, nops=40):
         live[n] = "stream"
     hnames = rng.sample(names[:5], 3)
     for i, n in enumerate(hnames):
-        ops.append({"op": "open_stream", "p": sp([n]), "h": f"h{i}"})
+        # the handle is obtained through ANOTHER spelling of the path than the stored one more often than not (letter case,
+        # '.', resolvable '..'), and now and then by create_stream over the existing stream (which keeps the entry)
+        pth = spell(rng, d, [n], 0.7) if rng.random() < 0.7 else sp([n])
+        others = [v for v in d.variants(n) if v != n]
+        if i == 0 and others:
+            pth = sp([rng.choice(others)])          # (one handle per history always through a different letter case)
+        if i == 2 and rng.random() < 0.5:
+            ops.append({"op": "create_stream", "p": pth, "h": f"h{i}"})
+        else:
+            ops.append({"op": "open_stream", "p": pth, "h": f"h{i}"})
         held[f"h{i}"] = n
     protected = set(held.values())
     while len(ops) < nops:
